@@ -34,6 +34,11 @@ CLAIMED = {
    text="Layout: RoundTrip, ReservedZero, SuffixZero, Injective, PtrBack, IllegalRejected for all six legal lengths (and 11 illegal ones) over a 3-5 value octet alphabet, plus seeded random addresses on the code. Decision: SynthOnlyWhenAllowed, NeverOverFailure, NeverAD, TtlMin, WellKnownSkipsExcludedV4, owner-after-chain over client flags x class x eligibility x downstream AAAA/A response classes (all 11 DNSSEC EDE codes).",
    design_ref="2.11",
    note="Two defects found and repaired (fix: 1f8aa3e AD on fully-filtered answers, 96db742 zero negative TTL); one recorded finding (all-zero Pref64 ::/56, ::/64 with IPv4-mapped-looking results does not PTR-translate back). A DNSSEC failure is visible to dns64 only as SERVFAIL + DNSSEC EDE; overlapping prefixes are not explored for PTR."),
+ "C03": dict(
+   technique="TLA+ spec CacheKey.tla (identities Name x Type x Class x CD x Scope, an adversarial key function chosen by TLC to force collisions, Store/StoreForged/Refresh/Ask/RecFail/ForgeFail/RecCut/ForgeCut/Purge, one verifier transcription per lookup route) model-checked with TLC (ExactAudience, PurgeComplete/PurgeExact, RefreshInherits); simulated behaviours replayed on the real edns+cache chain with collisions staged for real through the pre-keyed writers, every route probed with message-born and wire-born requests",
+   text="TLC enumerates all key functions over 2-4 preimages and 2-4 step histories; the replay files one response under the real hashes of every preimage the model collides, then probes msg hit, wire hit, scoped probe, chase hop, cut msg/wire, failure msg/wire, GetWithContext, ReplaceIfCurrent and purge for 7 audiences; rdata carries the identity it was stored for, so a reply is judged by the property predicate on wire-octet identity.",
+   design_ref="2.8",
+   note="Byte-level key parity (Key/KeyWire/KeyWithPrefix/KeyWireWithPrefix over label bytes 0-255) is sampled (4,000 / 60,000 names per run), not enumerated. Four recorded findings, all needing raw bytes >= 0x80 or non-ASCII letters in presentation text (FailureCache and nxdomain-cut normalise with dns.CanonicalName; Store.Purge's scoped sweep uses strings.EqualFold). Zone-kind failures and RFC 8198 proofs are not modelled here (C13/C02)."),
 }
 
 NOT_YET = {}
